@@ -1390,6 +1390,12 @@ func (g *fgen) binop(x *ssa.BinOp, st *state) {
 				r = fmt.Sprintf("(= (i_dt %s) 0)", b.t)
 			} else {
 				// dynamic comparison: equal (dt,pl) implies equal; boxed payloads may be equal by value
+				if refIface(x.X) || refIface(x.Y) {
+					// one side is a boxed pointer: interfaces are equal exactly when the
+					// dynamic types and the pointers are
+					r = fmt.Sprintf("(= %s %s)", a.t, b.t)
+					break
+				}
 				n := g.fresh("ifeq", "Bool")
 				g.fact("true", fmt.Sprintf("(=> (= %s %s) %s)", a.t, b.t, n))
 				g.fact("true", fmt.Sprintf("(=> (not (= (i_dt %s) (i_dt %s))) (not %s))", a.t, b.t, n))
@@ -2025,4 +2031,10 @@ func (g *fgen) assumeAxioms() {
 			g.assum["axiom "+ld.name+": "+ld.body.src] = true
 		}
 	}
+}
+
+// refIface: the interface value is the boxing of a pointer-like (reference sort) value.
+func refIface(v ssa.Value) bool {
+	mi, ok := v.(*ssa.MakeInterface)
+	return ok && isRefSort(mi.X.Type())
 }
